@@ -375,6 +375,63 @@ func c13Index(run *hx.Run, data []byte, si scanIndex, dbname string, ps, pi, per
 			run.Sample(hx.M{"db": dbname, "index": si.name, "entries": len(L), "key": hx.RowString(k), "flags": fmt.Sprint(si.flags), "scanmin_from": start, "scaneq": eqEnd - start, "range_to": end})
 		}
 	}
+	// key-positioned scans started from INSIDE the callback of a scan over the same tree (a join the caller writes
+	// by hand: for every entry, look something up): the inner scans answer as they do alone, the outer scan goes on
+	if len(L) >= 4 && len(keys) > 0 {
+		at := map[int]bool{0: true, len(L) / 2: true, len(L) - 1: true}
+		seen := 0
+		var nestedErr string
+		var outerN int
+		_, pmN := safely(func() {
+			oerr := ix.Scan(func(sdb.Record) bool {
+				if at[outerN] && nestedErr == "" {
+					for j := 0; j < 2; j++ {
+						k := keys[(outerN+j*7+seen)%len(keys)]
+						start := firstNotLess(k)
+						eqEnd := start
+						for eqEnd < len(L) && hx.RefCompareRecordKey(L[eqEnd], k, si.flags) == 0 {
+							eqEnd++
+						}
+						for _, in := range []struct {
+							op   string
+							want []hx.Row
+							f    func(cb sdb.RecordCB) error
+						}{
+							{"ScanMin", L[start:], func(cb sdb.RecordCB) error { return ix.ScanMin(toKey(k), cb) }},
+							{"ScanEq", L[start:eqEnd], func(cb sdb.RecordCB) error { return ix.ScanEq(toKey(k), cb) }},
+							{"ScanRange", L[start:], func(cb sdb.RecordCB) error { return ix.ScanRange(toKey(k), nil, cb) }},
+						} {
+							if in.op == "ScanRange" {
+								continue // an open upper end is not part of the documented contract
+							}
+							res := collect(in.want, in.f)
+							run.Eval(1)
+							seen++
+							if res.pm != "" || res.err != nil || res.bad >= 0 || (res.n < len(in.want) && !(len(L) > 3000)) {
+								nestedErr = fmt.Sprintf("%s(%s, %s) called from inside the callback of Scan(%s) at entry %d of %d: err=%v panic=%q entries=%d (alone: %d) first difference at %d", in.op, si.name, hx.RowString(k), si.name, outerN+1, len(L), res.err, firstLines(res.pm, 1), res.n, len(in.want), res.bad)
+								return true
+							}
+						}
+					}
+				}
+				outerN++
+				return false
+			})
+			if oerr != nil && nestedErr == "" {
+				nestedErr = fmt.Sprintf("Scan(%s) with key-positioned scans inside its callback: %v", si.name, oerr)
+			}
+		})
+		switch {
+		case pmN != "":
+			run.Violation("C13/nested/panic", firstLines(pmN, 2), hx.M{"db": dbname, "index": si.name})
+		case nestedErr != "":
+			run.Violation("C13/nested/differs-from-alone", nestedErr+" on "+dbname, hx.M{"db": dbname, "index": si.name})
+		case outerN != len(L):
+			run.Violation("C13/nested/outer-disturbed", fmt.Sprintf("Scan(%s) on %s delivered %d entries instead of %d when key-positioned scans ran inside its callback", si.name, dbname, outerN, len(L)), hx.M{"db": dbname, "index": si.name})
+		default:
+			run.See("nested_key_positioned_scans", "as alone")
+		}
+	}
 	run.Count("indexes", 1)
 	run.Count("index_entries", len(L))
 	if si.pkOfWR {
